@@ -80,6 +80,15 @@ def mk_index(base, idx):
     of x."""
     if idx[0] in ("elem", "elem2") and idx[1] == _range_len(base):
         return (idx[0], base)
+    if base[0] == "call" and base[1][0] == "attr" \
+            and base[1][2] == "partition" and len(base[2]) == 1 \
+            and not base[3] and idx in (("const", 0), ("const", 2)):
+        # x.partition(s)[0] is x.split(s, 1)[0]; [2] is x.split(s, 1)[1]
+        # wherever s occurs in x (the only case in which the latter is
+        # evaluated by the other spelling)
+        sp = ("call", ("attr", base[1][1], "split"),
+              (base[2][0], ("const", 1)), ())
+        return ("index", sp, ("const", 0 if idx[1] == 0 else 1))
     if base[0] == "slice" and base[3] is None and idx[0] == "const" \
             and isinstance(idx[1], int) and idx[1] >= 0 \
             and base[2] is not None and base[2][0] == "const" \
@@ -376,7 +385,7 @@ class Interp:
     """
 
     PURE_METHODS = {"lower", "upper", "strip", "rstrip", "lstrip", "split",
-                    "rsplit", "startswith", "endswith", "find", "rfind",
+                    "rsplit", "partition", "rpartition", "startswith", "endswith", "find", "rfind",
                     "get", "keys", "items", "values", "group", "end", "start",
                     "match", "join", "replace", "format", "copy",
                     "isabstract", "issection", "ismulti", "allowUnnamed"}
@@ -647,6 +656,11 @@ class Interp:
             # test `if isinstance(x, C)`
             return self.decide(("isinstance", t[2][0],
                                 fmt(t[2][1]).split(".")[-1]))
+        if t[0] == "index" and t[2] == ("const", 1) and t[1][0] == "call" \
+                and t[1][1][0] == "attr" and t[1][1][2] == "partition" \
+                and len(t[1][2]) == 1 and not t[1][3]:
+            # bool(x.partition(s)[1])  is  s in x
+            return self.decide(("contains", t[1][2][0], t[1][1][1]))
         if t[0] == "const":
             return bool(t[1])
         if t[0] == "get":
@@ -1686,8 +1700,10 @@ class Interp:
             if st.exc is None:
                 raise _Raise("reraise", ())
             e = st.exc
-            if isinstance(e, ast.Call) and self._exc_name(
-                    e.func, env) in self.m.functions:
+            if isinstance(e, ast.Call) and (self._exc_name(
+                    e.func, env) in self.m.functions or (
+                    isinstance(e.func, ast.Name) and e.func.id in env
+                    and env[e.func.id][0] == "closure")):
                 # raise helper(...): the helper builds the exception
                 t = self.eval(e, env)
                 raise _Raise("dynamic:" + fmt(t), (t,), st)
